@@ -52,8 +52,24 @@ Next == /\ n < Depth
         /\ n' = n + 1 /\ UNCHANGED base
 Spec == Init /\ [][Next]_vars
 
-\* the law: every rewrite preserves the denotation of the base program
-Preserved == Denote(p) = Denote(Cfg.bases[base])
+\* denotation a with its columns brought into the order of b's names (defined when both have the same,
+\* pairwise distinct, names)
+SameNameSet(a, b) == /\ Len(a.names) = Len(b.names)
+                     /\ { a.names[i] : i \in Idx(a.names) } = { b.names[i] : i \in Idx(b.names) }
+                     /\ \A i, j \in Idx(a.names) : i # j => a.names[i] # a.names[j]
+Reorder(a, b) ==
+  LET m == Len(b.names)
+      perm == [i \in 1 .. m |-> CHOOSE j \in 1 .. m : a.names[j] = b.names[i]]
+  IN [a EXCEPT !.names = b.names,
+               !.W = [d \in Idx(a.W) |-> { [w EXCEPT !.rows = [r \in Idx(w.rows) |-> [w.rows[r] EXCEPT !.v = [i \in 1 .. m |-> w.rows[r].v[perm[i]]]]]] : w \in a.W[d] }]]
+\* the law: every rewrite preserves the denotation of the base program.  Naming a prefix with let /
+\* into makes its computed columns columns of an input, and the resolver's `this.*` rule (see Group in
+\* Prql.tla) then orders the partition of a later group differently: the result is the same relation
+\* with its columns in another order (a defect of its own, F87).  The law is therefore stated up to
+\* column order and the reordering is reported separately (Reordered).
+Preserved == LET a == Denote(p)  b == Denote(Cfg.bases[base]) IN
+             a = b \/ (a.status = "ok" /\ b.status = "ok" /\ SameNameSet(a, b) /\ Reorder(a, b) = b)
+Reordered == Denote(p) # Denote(Cfg.bases[base])
 BaseOk == Denote(Cfg.bases[base]).status = "ok"
-Emit == (n > 0) => PrintT(<<"REPLAY", ToJson([base |-> base, n |-> n, decls |-> p.decls, steps |-> p.steps])>>)
+Emit == (n > 0) => PrintT(<<"REPLAY", ToJson([base |-> base, n |-> n, decls |-> p.decls, steps |-> p.steps, reordered |-> Reordered])>>)
 =======================================================================
